@@ -84,7 +84,7 @@ RefRouterInfo(b) ==
 
 \* LeaseSet: Destination | ElGamal encryption key | signing key (destination's type) | num(1) | leases | signature
 RefLeaseSet(b) ==
-  LET d == RefReadKAC(b) IN     \* the role policy is judged separately (C09)
+  LET d == RefReadDestination(b) IN
   IF ~d.ok THEN [ok |-> FALSE, short |-> d.short, consumed |-> d.consumed, d |-> d]
   ELSE LET p == d.consumed + ElgLen + SigPubLen(d.st) IN
        IF Len(b) < p + 1 THEN Fail(TRUE, p + 1) @@ [d |-> d]
